@@ -59,6 +59,9 @@ CHECKS = {
  "C17": ("TLC model checking with a Fault action at every callback step (FaultAtomic, Efficiency; CommitEarly negative controls) + replay of all TLC fault behaviours into the code + enumerated fault injection validated by TLC",
          "Every (call, callback) fault position of the bounded model is explored by TLC and replayed into the real explainers; random scenarios get every fault position injected in turn and TLC checks atomicity and the efficiency identity of the continued stream.",
          "single and double faults; `seen` after a failed call left open", "§4 C17"),
+ "C19": ("TLC model checking of TreeStore.tla (reservoir bookkeeping under an unrestricted tree environment; LazyPurge negative control) + TLC trace validation of every update of the real TreeStorage on drifting streams (leaf set, routed leaf, reservoirs before/after) and of TreeImputer calls",
+         "ReservoirKeysAreLeaves, ReservoirBounded, ContentsObserved, NewestInRoutedLeaf hold in the specification whatever river's trees do; every recorded update must be the specification's step for the logged leaf set (TLC infers the slot), including a pinned history on which stale reservoirs were observed; TreeImputer model inputs are checked against the routed leaf's reservoir contents.",
+         "river's trees are environment; leaf ids are the library's path strings, their number cross-checked by an independent traversal", "§4 C19"),
 }
 
 NOT_YET = "check not built yet in this session (planned: see DESIGN.md section 4)"
